@@ -251,7 +251,9 @@ func main() {
 	sc := bufio.NewScanner(f)
 	sc.Buffer(make([]byte, 1<<20), 16<<20)
 	i := 0
-	msizes := []uint32{665, 4249}
+	// 528 and 4116: msize values at which a payload size derived from a smaller reserve than the
+	// largest fixed message part (153 bytes) makes a full Twrite exceed msize
+	msizes := []uint32{665, 4249, 528, 4116}
 	offsets := []int64{0, 1<<32 + 7}
 	if *full {
 		msizes = []uint32{154, 155, 665, 666, 4249, 65689, 1<<20 + 153}
